@@ -18,6 +18,7 @@ namespace xv
         F_ALT = 2, // e2 is acceptable as well
         F_ZSIGN = 4, // a zero of either sign is acceptable when the expected value is a zero
         F_SKIP1 = 8, // second output not demanded
+        F_EXACT = 16, // bit-exact even for NaN (operations that act on the bit pattern only)
     };
 
     template <class T>
@@ -32,7 +33,7 @@ namespace xv
     {
         T v {}, alt {};
         T v2 {}; // second output of element type (sincos)
-        bool has_alt = false, skip = false, zsign = false, skip1 = false;
+        bool has_alt = false, skip = false, zsign = false, skip1 = false, exact = false;
         bool bv = false; // Boolean result
         int64_t iv = 0; // integer second result (frexp) or integer result of another width
     };
@@ -46,6 +47,7 @@ namespace xv
         uint8_t* flags;
         size_t n;
         long param;
+        int lanes; // batch size of the implementation being judged (only batch-wise references use it)
     };
     struct SanArgs
     {
@@ -123,7 +125,7 @@ namespace xv
                     store_int(A.e2[1], sig->out_t[1], i, r.iv);
                 }
             }
-            A.flags[i] = (uint8_t)((r.skip ? F_SKIP : 0) | (r.has_alt ? F_ALT : 0) | (r.zsign ? F_ZSIGN : 0) | (r.skip1 ? F_SKIP1 : 0));
+            A.flags[i] = (uint8_t)((r.skip ? F_SKIP : 0) | (r.has_alt ? F_ALT : 0) | (r.zsign ? F_ZSIGN : 0) | (r.skip1 ? F_SKIP1 : 0) | (r.exact ? F_EXACT : 0));
         }
     }
 
@@ -156,9 +158,11 @@ namespace xv
     {
         std::string name;
         std::string space; // operand-space key
+        std::string fp_space; // operand-space key for float/double instantiations (if different)
         RefLoop ref[XV_NTYPES] = {};
         SanLoop san[XV_NTYPES] = {};
         int param_kind = 0; // 0 none, 1 = every count in [0,bits), 2 = small scalar set
+        bool batchwise = false; // the expected value of a lane depends on the whole batch (reductions, mask summaries)
     };
 
     inline std::map<std::string, OpSpec>& specs()
@@ -230,6 +234,53 @@ namespace xv
         int shifts = 1; // every tuple is visited at `shifts` consecutive lane offsets
         uint64_t ntuples = 0, stride = 0;
         std::vector<std::vector<uint64_t>> literal; // replay: operand k of stream position p is literal[k][p % size]
+        int mask_kind = 0; // Boolean operands generated from 64-bit mask words, one word per 64 stream positions
+        uint64_t mask_groups = 0;
+        static inline uint64_t rev16(uint64_t x)
+        {
+            uint64_t r = 0;
+            for (int i = 0; i < 16; ++i)
+                if (x & (1ull << i))
+                    r |= 1ull << (15 - i);
+            return r;
+        }
+        static inline uint64_t special16(uint64_t i, uint64_t a)
+        {
+            static const uint64_t S[14] = { 0x0000, 0xFFFF, 0x0001, 0x8000, 0x5555, 0xAAAA, 0x00FF, 0xFF00, 0x0F0F, 0xF0F0, 0x3333, 0xCCCC, 0x7FFF, 0xFFFE };
+            return i < 14 ? S[i] : (i == 14 ? (~a & 0xFFFF) : a);
+        }
+        // mask word of operand k in group g
+        inline uint64_t maskword(uint64_t g, int k) const
+        {
+            uint64_t c0, c1, c2, c3;
+            if (mask_kind == 1)
+            { // one operand: chunk 0 enumerates all 2^16 masks
+                c0 = g & 0xFFFF;
+                c1 = (g * 0x9E37 + 1) & 0xFFFF;
+                c2 = ~g & 0xFFFF;
+                c3 = rev16(g & 0xFFFF);
+            }
+            else if (mask_kind == 2)
+            { // two operands: the low 8 bits enumerate all pairs of 8-bit masks
+                uint64_t a = g & 0xFF, b = (g >> 8) & 0xFF;
+                uint64_t x = k == 0 ? a : b, y = k == 0 ? b : a;
+                c0 = x | ((mix64(g + 77 * (uint64_t)k) & 0xFF) << 8);
+                c1 = (y << 8) | x;
+                c2 = (~x & 0xFF) | (rev16(y) & 0xFF00);
+                c3 = mix64(g * 2 + (uint64_t)k) & 0xFFFF;
+            }
+            else
+            { // two operands: all 2^16 masks x 16 special partners in chunk 0
+                uint64_t a = g & 0xFFFF, i = (g >> 16) & 15;
+                uint64_t b = special16(i, a);
+                uint64_t x = k == 0 ? a : b, y = k == 0 ? b : a;
+                c0 = x;
+                c1 = y;
+                c2 = rev16(x);
+                c3 = ~y & 0xFFFF;
+            }
+            return c0 | (c1 << 16) | (c2 << 32) | (c3 << 48);
+        }
         void finish()
         {
             if (!literal.empty())
@@ -237,6 +288,13 @@ namespace xv
                 ntuples = literal[0].size();
                 shifts = 1;
                 stride = (ntuples + 63) & ~63ull;
+                return;
+            }
+            if (mask_kind)
+            {
+                ntuples = mask_groups;
+                shifts = 1;
+                stride = mask_groups * 64;
                 return;
             }
             if (order.empty())
@@ -255,6 +313,12 @@ namespace xv
             {
                 for (size_t k = 0; k < literal.size(); ++k)
                     vals[k] = literal[k][p % literal[k].size()];
+                return;
+            }
+            if (mask_kind)
+            {
+                for (size_t k = 0; k < al.size(); ++k)
+                    vals[k] = (maskword(p >> 6, (int)k) >> (p & 63)) & 1;
                 return;
             }
             uint64_t k = p / stride, q = p % stride;
@@ -541,7 +605,8 @@ namespace xv
                     SanArgs sa { &sig, sin, n, O.param };
                     san(sa);
                 }
-                RefArgs ra { &sig, use_in, e1, e2, flags, n, O.param };
+                int ref_lanes = O.impls.empty() ? 1 : O.impls.front().op->lanes;
+                RefArgs ra { &sig, use_in, e1, e2, flags, n, O.param, ref_lanes };
                 O.spec->ref[sig.elem](ra);
                 // statistics on the reference result
                 {
@@ -575,6 +640,12 @@ namespace xv
                     Impl& im = O.impls[ii];
                     if (O.saturated[ii])
                         continue;
+                    if (O.spec->batchwise && im.op->lanes != ref_lanes)
+                    {
+                        ref_lanes = im.op->lanes;
+                        RefArgs rb { &sig, use_in, e1, e2, flags, n, O.param, ref_lanes };
+                        O.spec->ref[sig.elem](rb);
+                    }
                     xv_ctx ctx;
                     memset(&ctx, 0, sizeof ctx);
                     ctx.param = O.param;
@@ -604,7 +675,7 @@ namespace xv
                             uint64_t ab = load_bits((const char*)e2[o] + i * (size_t)osz, osz);
                             if ((f & F_ALT) && ob == ab)
                                 continue;
-                            if (is_fp_type(ot))
+                            if (is_fp_type(ot) && !(f & F_EXACT))
                             {
                                 if (bits_is_nan(eb, ot) && bits_is_nan(ob, ot))
                                     continue;
